@@ -427,3 +427,10 @@ def replay(w):
         return False, '%s: sequence agrees with dict' % cid
     finally:
         AR.drop_root(root)
+
+
+def level_a(tier):
+    """file_archive mapping glue, null_archive and dict_archive methods proved by pyvc over the assumed contract of
+    file_archive.__asdict__/__save__ (contracts/archive_classes.py)"""
+    from checks import wrapperprops
+    return wrapperprops.arch_level_a('C03')
